@@ -23,10 +23,12 @@
 //        -> A=<dst channels> F=<dst bit field> E=<dst==src> Es=<src==dst> Q0=<dst==same0> R0=<same0==dst> Q1=<dst==same1> R1=<same1==dst>
 //           T=<same0==same1> N0=<dst!=same0> N1=<dst!=same1> D=<dst==other> DN=<dst!=other>
 //   alg <cs> <T> <l1> <l2> v0 .. | w0 ..      (value pixels p1: layout l1 values v, p2: layout l2 values w)
-//        -> fill= gen= fe1= fe2= fe3= tr1= tr2= min= max= minat= maxat= eq= cp=
+//        -> fill= gen= fe1= fe2= fe3= tr1= tr2= min= max= minat= maxat= eq= cp=   (fe*, tr*, eq, cp: one result per overload / model
+//           combination, joined by '/': every source mutable and const, value and planar reference; destinations value and planar)
 #include <boost/gil.hpp>
 #include "harness.hpp"
 #include <memory>
+#include <utility>
 namespace gil = boost::gil;
 namespace mp11 = boost::mp11;
 using std::string;
@@ -207,23 +209,51 @@ template <typename T> struct counter { int* c; T operator()() { return (T)((*c)+
 template <typename T> struct plus1 { T operator()(T a) const { return (T)(a + 1); } };
 template <typename T> struct comb { T operator()(T a, T b) const { return (T)(a * 16 + b); } };
 
+// every static_* algorithm is called through EVERY overload of its overload set: each source as mutable l-value and as const,
+// each source / destination as value pixel and (identity layouts, n >= 2) as planar reference.  Results of all combinations are
+// printed, joined by '/', in a fixed order; by the Spec they are all the same.
+static void add(string& acc, const std::vector<double>& v) { acc += (acc.empty() ? "" : "/") + show(v); }
+
 template <typename T, typename L1, typename L2> static string alg_h(std::vector<double> v, std::vector<double> w) {
     constexpr int n = nchan<L1>(); using p1_t = gil::pixel<T, L1>; using p2_t = gil::pixel<T, L2>;
+    using cs_t = typename L1::color_space_t; using pref_t = gil::planar_pixel_reference<T&, cs_t>;
+    constexpr bool planar1 = n >= 2 && is_identity<L1>(), planar2 = n >= 2 && is_identity<L2>();
     if ((int)v.size() != n || (int)w.size() != n) return "bad-op";
-    p1_t p1; put(p1, v); p2_t p2; put(p2, w);
-    string out;
+    p1_t p1; put(p1, v); p2_t p2; put(p2, w); p1_t p3 = p1;
+    T pl1[n], pl2[n]; for (int i = 0; i < n; ++i) { pl1[i] = (T)v[i]; pl2[i] = (T)w[i]; }
+    // f(source) for every model of the first / second source, each as mutable l-value and as const
+    auto both = [](auto& x, auto f) { f(x); f(std::as_const(x)); };
+    auto for_p1 = [&](auto f) { both(p1, f); if constexpr (planar1) { pref_t r = make_planar<pref_t>(pl1, std::integral_constant<int, n>{}); both(r, f); } };
+    auto for_p2 = [&](auto f) { both(p2, f); if constexpr (planar2) { pref_t r = make_planar<pref_t>(pl2, std::integral_constant<int, n>{}); both(r, f); } };
+    // f(destination, reader) for every destination model (layout L2), freshly zeroed
+    auto for_dst = [&](auto f) {
+        { p2_t d; gil::static_fill(d, (T)0); f(d, [&] { return phys(d); }); }
+        if constexpr (planar2) { T dp[n]; for (int i = 0; i < n; ++i) dp[i] = (T)0; pref_t d = make_planar<pref_t>(dp, std::integral_constant<int, n>{});
+            f(d, [&] { std::vector<double> r; for (int i = 0; i < n; ++i) r.push_back((double)dp[i]); return r; });
+            pref_t const cd = make_planar<pref_t>(dp, std::integral_constant<int, n>{}); for (int i = 0; i < n; ++i) dp[i] = (T)0;
+            f(cd, [&] { std::vector<double> r; for (int i = 0; i < n; ++i) r.push_back((double)dp[i]); return r; }); }
+    };
+    string out, fe1, fe2, fe3, tr1, tr2, eq, cp;
     { p1_t q = p1; gil::static_fill(q, (T)7); out += "fill=" + show(phys(q)); }
     { p1_t q = p1; int c = 100; gil::static_generate(q, counter<T>{&c}); out += " gen=" + show(phys(q)); }
-    { std::vector<double> s; gil::static_for_each(p1, rec1{&s}); out += " fe1=" + show(s); }
-    { std::vector<double> s; gil::static_for_each(p1, p2, rec2{&s}); out += " fe2=" + show(s); }
-    { std::vector<double> s; p1_t const c1 = p1; gil::static_for_each(c1, p2, p1, rec3{&s}); out += " fe3=" + show(s); }
-    { p2_t d; gil::static_fill(d, (T)0); gil::static_transform(p1, d, plus1<T>{}); out += " tr1=" + show(phys(d)); }
-    { p2_t d; gil::static_fill(d, (T)0); gil::static_transform(p1, p2, d, comb<T>{}); out += " tr2=" + show(phys(d)); }
+    for_p1([&](auto& a) { std::vector<double> s; gil::static_for_each(a, rec1{&s}); add(fe1, s); });
+    for_p1([&](auto& a) { for_p2([&](auto& b) {
+        { std::vector<double> s; gil::static_for_each(a, b, rec2{&s}); add(fe2, s); }
+        both(p3, [&](auto& c) { std::vector<double> s; gil::static_for_each(a, b, c, rec3{&s}); add(fe3, s); });
+        for_dst([&](auto& d, auto read) { gil::static_transform(a, b, d, comb<T>{}); add(tr2, read()); });
+        eq += (eq.empty() ? "" : "/") + std::to_string(gil::static_equal(a, b));
+    }); });
+    for_p1([&](auto& a) {
+        for_dst([&](auto& d, auto read) { gil::static_transform(a, d, plus1<T>{}); add(tr1, read()); });
+        { p2_t d = p2; gil::static_copy(a, d); add(cp, phys(d)); }
+        if constexpr (planar2) { T dp[n]; for (int i = 0; i < n; ++i) dp[i] = (T)w[i]; pref_t d = make_planar<pref_t>(dp, std::integral_constant<int, n>{});
+            gil::static_copy(a, d); std::vector<double> r; for (int i = 0; i < n; ++i) r.push_back((double)dp[i]); add(cp, r); }
+    });
+    out += " fe1=" + fe1 + " fe2=" + fe2 + " fe3=" + fe3 + " tr1=" + tr1 + " tr2=" + tr2;
     { p1_t const c1 = p1; out += " min=" + std::to_string((long long)gil::static_min(c1)) + " max=" + std::to_string((long long)gil::static_max(c1));
       p1_t q = p1; T& mn = gil::static_min(q); T& mx = gil::static_max(q);
       out += " minat=" + std::to_string((long long)(&mn - &gil::at_c<0>(q))) + " maxat=" + std::to_string((long long)(&mx - &gil::at_c<0>(q))); }
-    out += " eq=" + std::to_string(gil::static_equal(p1, p2));
-    { p2_t d = p2; gil::static_copy(p1, d); out += " cp=" + show(phys(d)); }
+    out += " eq=" + eq + " cp=" + cp;
     return out;
 }
 
